@@ -714,8 +714,13 @@ func (r *Raft) RemoveServer(id string, timeout time.Duration) Future[Configurati
 	delete(configuration.Members, id)
 	delete(configuration.IsVoter, id)
 
-	// Add the configuration to the log.
+	// Add the configuration to the log. It is in force from here on, as it is when a node
+	// is added: the removed node does not count toward a quorum anymore, and no other membership
+	// change is accepted until this one is committed.
 	r.appendConfiguration(&configuration)
+
+	r.configuration = &configuration
+	delete(r.followers, id)
 	r.configurationResponseCh = configurationFuture.responseCh
 
 	r.sendAppendEntriesToPeers()
